@@ -31,6 +31,9 @@ fn ms(d: u64) -> String {
 /// the shell command of a test case; `log` is the shell word naming the marker log
 pub fn command(t: &TestSpec, log: &str) -> String {
     let mut c = format!("echo {} >> {}", t.id, log);
+    if !t.extra.is_empty() {
+        c.push_str(&format!("; {}", t.extra));
+    }
     if t.detached {
         return c;
     }
@@ -118,7 +121,10 @@ pub fn render_markdown(doc: &DocSpec, log: &str) -> Vec<u8> {
             cfg.push("detached: true".to_string());
         }
         if let Some(w) = t.wait_ms {
-            cfg.push(format!("wait: {}", ms(w)));
+            match &t.wait_path {
+                Some(p) => cfg.push(format!("wait: {{timeout: {}, path: {p}}}", ms(w))),
+                None => cfg.push(format!("wait: {}", ms(w))),
+            }
         }
         if cfg.is_empty() {
             s.push_str("```scrut\n");
